@@ -1017,6 +1017,37 @@ fn pipe_keyed_join(args: &[i128]) -> Result<String, String> {
     }))
 }
 
+// ------------------------------------------------------------------------------------- panic (C20)
+
+/// pipe_panic [n(1..=8), mask] -> `FAILED|RETURNED FAILED|RETURNED`
+/// Job: `stream_par_iter(0..n).for_each(|x| if mask >> x & 1 == 1 { panic!() })` on `local(n)`: the range source
+/// gives replica i the element i, and the sink lives in the source's block, so exactly the replicas in `mask` fail
+/// and nothing else fails as a consequence. Run twice: with `mask` and with the mirrored mask (bit i <-> bit
+/// n-1-i), since the order in which the scheduler joins the workers is not part of the interface. Each token
+/// tells whether `execute_blocking` failed (panicked) or returned normally.
+fn pipe_panic(args: &[i128]) -> Result<String, String> {
+    let mut a = Args::new("pipe_panic", args);
+    let n = a.ranged("n", 1, 8)? as u64;
+    let mask = a.ranged("mask", 0, (1 << n) - 1)? as u64;
+    a.end()?;
+    let mirrored = (0..n).fold(0u64, |m, i| m | ((mask >> i & 1) << (n - 1 - i)));
+    Ok(supervised(move || {
+        let mut toks = Vec::new();
+        for m in [mask, mirrored] {
+            let env = context(n);
+            env.stream_par_iter(0..n).for_each(move |x| {
+                if m >> x & 1 == 1 {
+                    panic!("verif: injected user-function panic in replica {}", x);
+                }
+            });
+            let r = std::panic::catch_unwind(std::panic::AssertUnwindSafe(|| env.execute_blocking()));
+            toks.push(if r.is_err() { "FAILED" } else { "RETURNED" });
+        }
+        PANICKING.store(false, Ordering::SeqCst);
+        toks.join(" ")
+    }))
+}
+
 #[no_mangle]
 pub fn verif_replay_pipe(name: &str, args: &[i128]) -> Option<String> {
     let r = match name {
@@ -1031,6 +1062,7 @@ pub fn verif_replay_pipe(name: &str, args: &[i128]) -> Option<String> {
         "pipe_agg2" => pipe_agg2(args),
         "pipe_join" => pipe_join(args),
         "pipe_keyed_join" => pipe_keyed_join(args),
+        "pipe_panic" => pipe_panic(args),
         _ => return None,
     };
     Some(match r {
